@@ -198,7 +198,7 @@ def r03_2(facts, res, rule, ex, fn_filter):
         for nt, arms in sorted(shared.items()):
             # which alternative is tried first decides which nesting blows up: the order is part of the identity
             order = "<".join(label(a["arms"][i - 1]) for i in sorted(arms))
-            res.add(Finding(rule, "%s|alt#%d|%s|%s" % (a["fn"], a["ord"], nt, order),
+            res.add(Finding(rule, "%s|alt|%s|%s" % (a["fn"], nt, order),     # no ordinal: it moves when another alt is factored out
                             "alternatives %s of alt #%d in %s parse the recursive non-terminal %s after a common prefix: "
                             "nested input is re-parsed once per alternative and nesting level (exponential)"
                             % (sorted(arms), a["ord"], a["fn"], nt), f["file"], a.get("line"),
